@@ -14,7 +14,7 @@
 (* replay, where the verdict on the implementation is made.                *)
 (***************************************************************************)
 EXTENDS Generator, Json, TLCExt
-CONSTANTS MaxStack, MaxSize, MaxDepth, DoExport
+CONSTANTS MaxStack, MaxSize, MaxDepth, DoExport, ExportAtLevel     \* ExportAtLevel = 0: every transition; k: only transitions out of level k (simulation)
 VARIABLES g, mst, ret, lastpub, good, hist
 vars == <<g, mst, ret, lastpub, good, hist>>
 
@@ -102,6 +102,6 @@ Bounded == /\ Len(g.stack) <= MaxStack
            /\ Len(g.memory) <= 2
            /\ TLCGet("level") <= MaxDepth
 View == <<g, mst, ret, lastpub, good>>
-Export == IF DoExport THEN PrintT("SEQ " \o ToJson([phase |-> hist'.phase, good |-> good', calls |-> hist'.calls])) ELSE TRUE
+Export == IF DoExport /\ (ExportAtLevel = 0 \/ TLCGet("level") = ExportAtLevel \/ ~good') THEN PrintT("SEQ " \o ToJson([phase |-> hist'.phase, good |-> good', calls |-> hist'.calls])) ELSE TRUE
 Bad == ~good          \* counted, not an error: see the module comment
 =============================================================================
